@@ -27,13 +27,13 @@ def levels(tier):
              "every_step": True},
         ]
     return [
-        {"name": "n2", "shapes": [[1, 2, 3], [2, 2, 3]], "n": 2, "alphabet": edits + ["rmforeign", "delbad", "deldup"], "we_two_prefixes": True},
-        {"name": "refused", "shapes": [[1, 2, 3]], "n": 3, "prelude": [["we", [[1, 1], [2, 2]]]],
+        {"name": "n2-wide", "shapes": [[1, 2, 3]], "n": 2, "alphabet": edits + ["rmforeign", "delbad", "deldup"], "we_two_prefixes": True},
+        {"name": "refused-wide", "shapes": [[1, 2, 3]], "n": 2, "prelude": [["we", [[1, 1], [2, 2]]]],
          "alphabet": ["we", "addprefix", "delbad", "deldup", "rmforeign", "delwe"]},
-        {"name": "n3", "shapes": [[1, 2, 3]], "n": 3, "alphabet": edits},
-        {"name": "n4", "shapes": [[1, 2, 2]], "n": 4, "alphabet": ["we", "delwe", "addprefix", "rmprefix", "moveprefix"]},
-        {"name": "auto-n3", "typed": TPOOL, "default": "domain", "anchored": (1, 3, "path1"), "n": 3, "alphabet": ["we", "page", "delwe", "addprefix", "links"],
-         "links_batch": 1, "every_step": True},
+        {"name": "refused-n3", "shapes": [[1, 2, 2]], "n": 3, "prelude": [["we", [[1, 1], [2, 2]]]], "alphabet": ["delbad", "deldup", "addprefix"]},
+        {"name": "n3-wide", "shapes": [[1, 2, 3]], "n": 3, "alphabet": ["we", "delwe", "addprefix", "rmprefix", "moveprefix"]},
+        {"name": "n4", "shapes": [[1, 2, 2]], "n": 4, "alphabet": ["we", "delwe", "addprefix"]},
+        {"name": "auto-n3", "typed": TPOOL, "default": "domain", "anchored": (1, 3, "path1"), "n": 3, "alphabet": ["we", "page", "delwe"], "every_step": True},
     ]
 
 
